@@ -379,6 +379,8 @@ def chain(node: ast.AST) -> Optional[Tuple[str, ...]]:
             if isinstance(f, ast.Attribute):
                 out.append(f.attr + "()")
                 cur = f.value
+            elif isinstance(f, ast.Name) and f.id == "cast" and len(cur.args) == 2:
+                cur = cur.args[1]  # typing.cast is the identity
             elif isinstance(f, ast.Name):
                 out.append(f.id + "()")
                 return tuple(reversed(out))
